@@ -726,7 +726,9 @@ class Gen:
         for a in e.chain():
             for mm in a.methods:
                 if mm.decl.kind == "proc" and self.resolve_plain(e, m, mm.decl.key()) == [mm.decl]:
-                    out.append((mm.decl.name, None, [mm.decl], {"member" if a is e else "inherited", "call", "proc-result"}, True, set()))
+                    # declared further down in the class under annotation: not in its table yet when the call is typed
+                    bad = {"forward"} if (a is e and e.methods.index(mm) > self.m_index) else set()
+                    out.append((mm.decl.name, None, [mm.decl], {"member" if a is e else "inherited", "call", "proc-result"}, True, bad))
         for n in INTRINSICS:
             if not self.resolve_plain(e, m, n.upper()) and not self.uses_member_hit(e, m, n.upper()):
                 out.append((n, None, [], {"intrinsic", "call", "unresolvable"}, True, set()))
